@@ -117,6 +117,7 @@ package tubes
 //@ func (s *sender) recvAck(ackNo uint32) (missing uint32, err error)
 //@   property C11 C08
 //@   atomic
+//@   modifies s.ackNo, s.frames, s.unacked, s.RTT, s.RTO, s.senderWindow.cwndSize, s.senderWindow.state, s.senderWindow.duplicatedAckCounter, s.senderWindow.ssThresh, s.senderWindow.windowSize, opaque(s)
 //@   loop 1
 //@     invariant s.ackNo <= newAckNo ==> newAckNo - s.ackNo <= uint64(len(s.frames))
 //@     invariant forall i int :: 0 <= i && i < len(s.frames) ==> s.frames[i].frame != nil
@@ -355,6 +356,7 @@ package tubes
 //@   ensures called(tubes.frame.toBytes) ==> sentRel1 && sentID1 == ownID1 && same(argof(tubes.frame.toBytes, p), pkt)
 //@ func (r *Reliable) sendRetransmissionAck(lastFrameNo uint32, ackNo uint32, tubeId byte)
 //@   property C09
+//@   modifies opaque(r)
 //@   after tubes.frame.toBytes let sentRel2 = argof(tubes.frame.toBytes, p).flags.REL
 //@   after tubes.frame.toBytes let sentID2 = argof(tubes.frame.toBytes, p).tubeID
 //@   ensures called(tubes.frame.toBytes) && sentRel2 && sentID2 == tubeId
@@ -405,3 +407,64 @@ package tubes
 //@   ensures called(tubes.sender.write) <==> (old(r.tubeState) == tubes.initiated || old(r.tubeState) == tubes.closeWait)
 //@   ensures !called(tubes.sender.write) ==> n == 0 && err != nil
 //@   ensures called(tubes.sender.write) ==> n == resultof(tubes.sender.write, n) && err == resultof(tubes.sender.write, err)
+
+// ===========================================================================
+// C08 / C16: the reliable tube's reaction to the peer's FIN (Reliable.receive)
+// ===========================================================================
+// Frames of the helpers the state machine calls (each checked against its body): none of them touches the tube's state.
+//@ func (s *sender) resetRetransmitTicker()
+//@   property C08
+//@   modifies opaque(s)
+//@ func (s *sender) unAckedFramesRemaining() (n int)
+//@   property C08
+//@   atomic
+//@   pure
+//@ func (s *sender) sendEmptyPacket()
+//@   property C08
+//@   modifies opaque(s)
+//@ func (s *sender) Close() (err error)
+//@   property C08
+//@   modifies opaque(s)
+//@ func (r *receiver) Close()
+//@   property C08
+//@   modifies opaque(r)
+//@ func (r *Reliable) sendFrameByNumberLocked(frameNo uint32)
+//@   property C08 C11
+//@   requires r.sender != nil
+//@   modifies opaque(r)
+//@   loop 1
+//@     invariant 0 <= i && len(r.sender.frames) >= tubes.defaultWindowSize
+//@ func (r *Reliable) enterClosedState()
+//@   property C08 C16
+//@   atomic
+//@   modifies r.tubeState, opaque(r)
+//@   ensures r.tubeState == tubes.closed
+
+// Whether the peer's FIN takes effect on the tube state is decided by ONE condition: the receive window consumed the
+// FIN in order in this call (all data before it has been delivered: receiver.receive returned true), or the frame
+// carries FIN and the window was already closed (a repeated FIN).
+//@ macro finFires(pkt) = resultof(tubes.receiver.receive, fin) || (pkt.flags.FIN && called(atomic.Bool.Load) && resultof(atomic.Bool.Load, result))
+//@ macro ackFailed() = called(tubes.sender.recvAck) && resultof(tubes.sender.recvAck, err) != nil
+//@ func (r *Reliable) receive(pkt *frame) (err error)
+//@   property C08 C16
+//@   atomic
+//@   logical F uint64
+//@   requires r.recvWindow != nil && r.sender != nil
+//@   requires qinv(r.recvWindow) && delivered(r.recvWindow)
+//@   requires F % 4294967296 == uint64(pkt.frameNo) && (F >= r.recvWindow.ackNo ? F - r.recvWindow.ackNo : r.recvWindow.ackNo - F) < 2147483648
+//@   requires bytes(pkt.data) == chunk(ref(r.recvWindow), F) && ref(pkt.data) != ref(r.recvWindow.buffer.buf)
+// the reassembly invariant of C08 holds for the tube as a whole, not only for its receive window
+//@   ensures called(tubes.receiver.receive) ==> qinv(r.recvWindow) && delivered(r.recvWindow)
+// a tube that was never initiated or is closed takes nothing
+//@   ensures old(r.tubeState) == tubes.created || old(r.tubeState) == tubes.closed ==> err != nil && !called(tubes.receiver.receive) && r.tubeState == old(r.tubeState)
+// (C08) SAFETY: the tube stops accepting data because of the peer's FIN only when the FIN fired: a FIN that overtook
+// data frames (not yet consumed by the window) changes nothing, so the overtaken data is still accepted afterwards
+//@   ensures old(r.tubeState) == tubes.initiated && r.tubeState == tubes.closeWait ==> finFires(pkt)
+//@   ensures old(r.tubeState) == tubes.finWait1 && r.tubeState == tubes.closing ==> finFires(pkt)
+//@   ensures !ackFailed() && (old(r.tubeState) == tubes.finWait1 || old(r.tubeState) == tubes.finWait2) && r.tubeState == tubes.closed ==> finFires(pkt)
+// (C16) PROGRESS: when the FIN fired the state machine records it, whichever frame made the window consume it
+//@   ensures called(tubes.receiver.receive) && !ackFailed() && finFires(pkt) && old(r.tubeState) == tubes.initiated ==> r.tubeState == tubes.closeWait
+//@   ensures called(tubes.receiver.receive) && !ackFailed() && finFires(pkt) && old(r.tubeState) == tubes.finWait1 ==> r.tubeState == tubes.closing || r.tubeState == tubes.closed
+//@   ensures called(tubes.receiver.receive) && !ackFailed() && finFires(pkt) && old(r.tubeState) == tubes.finWait2 ==> r.tubeState == tubes.closed
+// and nothing but an acknowledged FIN or a fired FIN moves an open tube out of the states in which it reads
+//@   ensures !ackFailed() && old(r.tubeState) == tubes.initiated ==> r.tubeState == tubes.initiated || r.tubeState == tubes.closeWait
